@@ -64,7 +64,7 @@ class Covariance(Metric[_Output]):
     def merge_state(self, metrics: Iterable[Self]) -> Self:
         with torch.inference_mode():
             for other in metrics:
-                self._update(other.sum, other.ss_sum, other.n)
+                self._update(other.sum.clone(), other.ss_sum.clone(), other.n)
         return self
 
     def compute(self) -> _Output:
